@@ -72,8 +72,26 @@ def test_to_constraints(term, outcome, symbols):
 
 
 def flatten_add(t):
+    """the pieces a string is put together from, whichever way it is written (+, %, f-string,
+    .format): constants and the terms rendered between them"""
     if isinstance(t, tuple) and t[:2] == ('OP', 'Add'):
         return flatten_add(t[2]) + flatten_add(t[3])
+    if isinstance(t, tuple) and (t[:1] == ('FSTR',) or t[:2] == ('OP', 'Mod') or (
+            t[:1] == ('CALL',) and isinstance(t[1], tuple) and t[1][:1] == ('ATTR',) and t[1][2] == 'format')):
+        rp = P.render_parts(t)
+        if rp is not None:
+            out = []
+            for part in rp:
+                if part[0] == 'lit':
+                    if part[1]:
+                        out.append(('CONST', repr(part[1])))
+                elif part[2] == 'r':
+                    out.append(('CALL', ('VAR', 'repr'), part[1]))
+                elif isinstance(part[1], tuple) and part[1][:1] == ('CONST',) and part[1][1] in ("''", '""'):
+                    pass
+                else:
+                    out += flatten_add(part[1])
+            return out
     return [t]
 
 
@@ -216,7 +234,7 @@ def excerpt_rules(fns, what, bad):
     I = ('PARAM', cf.args.args[0].arg)
     want = ('OP', 'Add', ('OP', 'Add', ('CONST', "'\\n'"), ('OP', 'Mult', ('CONST', "' '"), I)), ('CONST', "'^'"))
     nob += 1
-    if len(cp) != 1 or cp[0].end[0] != 'return' or cp[0].end[1] != want:
+    if len(cp) != 1 or cp[0].end[0] != 'return' or flatten_add(cp[0].end[1]) != flatten_add(want):
         bad('EXCERPT-caret', f'{what}: _caret_at(index) is not "\\n" + " " * index + "^"')
     return nob, len(text_paths)
 
